@@ -6,6 +6,7 @@ Works on a small IR (list of dicts), never on Cirq objects:
   {"t":"m", "key":str, "ax":[...], "inv":[bool...], "conf":[[positions, matrix], ...]}  measurement
   {"t":"reset", "ax":[a]}                                     reset to |0>
   {"t":"c", "conds":[cond...], "op": <IR op>}                 op applied iff all conditions hold
+  {"t":"cb", "conds":[cond...], "ops": [<IR op>...]}          block: conditions evaluated once, then all ops run
 conditions:
   {"t":"key", "key":k, "index":-1}                            int value of that record != 0
   {"t":"bitmask", "key":k, "index":-1, "target":v, "equal":bool, "mask":m|None}
@@ -85,6 +86,17 @@ def _step(op, st, shape):
         if all(_cond_holds(c, rec, shp) for c in op["conds"]):
             return _step(op["op"], st, shape)
         return [st]
+    if t == "cb":
+        # block conditional: the conditions are evaluated ONCE, then the whole block runs (or is skipped)
+        if not all(_cond_holds(c, rec, shp) for c in op["conds"]):
+            return [st]
+        cur = [st]
+        for sub in op["ops"]:
+            nxt = []
+            for s2 in cur:
+                nxt.extend(_step(sub, s2, shape))
+            cur = [s2 for s2 in nxt if s2[0] > EPS]
+        return cur
     if t == "u":
         U = L.embed(op["m"], op["ax"], shape)
         return [(p, rec, shp, U @ rho @ U.conj().T, None if psi is None else U @ psi)]
